@@ -138,7 +138,10 @@ pub fn generate(seed: u64, idx: u64) -> Scenario {
                         16 | 17 => gen::overshoot_edit(&mut rng, &cur),
                         _ => Edit {
                             range: None,
-                            text: {
+                            text: if rng.chance(250) {
+                                // the same text again (a client re-synchronising)
+                                cur.clone()
+                            } else {
                                 let k = pick_doc_kind(&mut rng);
                                 gen::document(&mut rng, k)
                             },
